@@ -500,8 +500,18 @@ var nearValid = []string{"", "0", "1", "5", "m", "mm", "1mm", "12.5mm", ".mm", "
 	"{6ba7b8109dad11d180b400c04fd430c8}", "urn:uuid:6ba7b8109dad11d180b400c04fd430c8", "6ba7b810-9dad-11d1-80b4-00c04fd430cg", "6ba7b810+9dad-11d1-80b4-00c04fd430c8",
 	"image/jpeg", ".jpg", "\xca\x3f\x80\x00\x00", "\xcd\x01\x00", "\xd1\xff\xff", "\x92\x01\x02", "\x82\xa5Width\x01\xa6Height\x02", "\x94\x01\x02\x03\x04", "\xcf\x00\x00\x00\x00\x00\x00\x00\x01", "\xc0", "\xc4\x10"}
 
+// boundaryNums: numbers at the edges of every integer width a text parser could narrow to.
+var boundaryNums = []string{"0", "1", "00", "007", "127", "128", "255", "256", "257", "32767", "32768", "65535", "65536", "65537", "131072", "196608", "1048576", "16777216", "2147483647", "2147483648",
+	"4294967295", "4294967296", "4294967297", "8589934592", "281474976710656", "9223372036854775807", "9223372036854775808", "18446744073709551615", "18446744073709551616", "18446744073709617152", "340282366920938463463374607431768211456"}
+
 func genText(rt *rapid.T) []byte {
-	switch rapid.IntRange(0, 4).Draw(rt, "textmode") {
+	switch rapid.IntRange(0, 5).Draw(rt, "textmode") {
+	case 5: // [sign] boundary [sep boundary] [unit]
+		s := rapid.SampledFrom([]string{"", "", "+", "-"}).Draw(rt, "sign") + rapid.SampledFrom(boundaryNums).Draw(rt, "n")
+		if sep := rapid.SampledFrom([]string{"/", "/", ".", "", "x", " "}).Draw(rt, "sep"); sep != "" {
+			s += sep + rapid.SampledFrom(boundaryNums).Draw(rt, "d")
+		}
+		return []byte(s + rapid.SampledFrom([]string{"", "", "mm", "m", "s"}).Draw(rt, "unit"))
 	case 0:
 		return []byte(rapid.SampledFrom(nearValid).Draw(rt, "nv"))
 	case 1: // prefix / suffix / one edit of a near-valid text
